@@ -167,7 +167,7 @@ __CPROVER_ensures((g_new < g_old_size || g_new >= n) || v->m_first[g_new] == 0);
 /*@extract {'file':'src/FeatureMap.cpp', 'sig': r'uint32 FeatureRef::getFeatureVal\(const Features& feats\) const',
    'emit':'uint32 FeatureRef_getFeatureVal(const FeatureRef *self, const Features *feats)',
    'subs':[[r'&m_face->theSill\(\)\.theFeatureMap\(\)', 'FACE_FEATUREMAP(m_face)', 1],
-           [r'feats\.size\(\)', 'Vector_size(feats)', 1], [r'feats\.m_pMap', 'feats->m_pMap', 1],
+           [r'feats\.size\(\)', 'Vector_size(feats)', 0], [r'feats\.m_pMap', 'feats->m_pMap', 0],
            [r'feats\[m_index\]', '(*Vector_at((Features *)feats, m_index))', 1]],
    'self':['m_face','m_mask','m_bits','m_index']}@*/
 
@@ -333,10 +333,16 @@ void h_apply(void)
 void h_get(void)
 {
     FeatureRef *f = malloc(sizeof(FeatureRef)); __CPROVER_assume(f != NULL);
-    Features *v = mk_vector(nondet_size_t() % 257, NULL);
+    /* the vector may belong to this face's map (the branch that reads a word), to another map, or to none; any length, exact-size storage */
+    bool w_samemap = nondet_bool(), w_nullmap = nondet_bool(), w_noface = nondet_bool();
+    Face *face = w_noface ? NULL : malloc(sizeof(Face)); __CPROVER_assume(w_noface || face != NULL);
+    f->m_face = face;
+    FeatureMap *other = malloc(sizeof(FeatureMap));
+    const FeatureMap *map = w_nullmap ? NULL : (w_samemap && face ? FACE_FEATUREMAP(face) : other);
+    size_t w_size = nondet_size_t() % 257;
+    Features *v = mk_vector(w_size, map);
     uint32 r = FeatureRef_getFeatureVal(f, v);
-    (void)r;
-    CANARY();
+    if (face && map == FACE_FEATUREMAP(face) && f->m_index < w_size) CANARY();       /* vacuity guard on the path that reads the word */
 }
 
 void h_isolation(void)
